@@ -130,7 +130,7 @@ func runStreamDirect(c *streamCase) []Ev {
 			buf[i] = 0xEE
 		}
 		copy(buf, s)
-		e := Ev{"ev": "segment", "conn": 1, "bytes": ints(s), "out": []int{}, "close": false, "panic": false, "stuck": false}
+		e := Ev{"ev": "segment", "conn": 1, "bytes": ints(s), "out": []int{}, "close": false, "panic": false, "stuck": false, "traced": []int{}, "tap": false}
 		func() {
 			defer func() {
 				if p := recover(); p != nil {
@@ -194,7 +194,27 @@ func (l *pipeListener) dial2(prepare func(serverSide net.Conn)) (net.Conn, net.C
 type tapAssembler struct {
 	inner server.PacketAssembler
 	done  chan tapResult
+	// RawReadTracer: the bytes of every non-empty read the server reports (beyond the listed properties, check E04)
+	tmu    sync.Mutex
+	traced []byte
 }
+
+// Read makes the tap a server.RawReadTracer
+func (t *tapAssembler) Read(data []byte, n int, err error) {
+	if n > 0 {
+		t.tmu.Lock()
+		t.traced = append(t.traced, data[:n]...)
+		t.tmu.Unlock()
+	}
+}
+func (t *tapAssembler) takeTraced() []int {
+	t.tmu.Lock()
+	defer t.tmu.Unlock()
+	out := ints(t.traced)
+	t.traced = nil
+	return out
+}
+
 type tapResult struct {
 	n      int
 	out    []byte
@@ -267,7 +287,7 @@ func runStreamE2E(c *streamCase) []Ev {
 	}()
 	seen := 0
 	for _, s := range segments(c) {
-		e := Ev{"ev": "segment", "conn": 1, "bytes": ints(s), "out": []int{}, "close": false, "panic": false, "stuck": false}
+		e := Ev{"ev": "segment", "conn": 1, "bytes": ints(s), "out": []int{}, "close": false, "panic": false, "stuck": false, "traced": []int{}, "tap": false}
 		conn.SetWriteDeadline(time.Now().Add(2 * time.Second))
 		if _, err := conn.Write(s); err != nil {
 			e["close"] = true
@@ -307,6 +327,7 @@ func runStreamE2E(c *streamCase) []Ev {
 			break
 		}
 		e["panic"] = res.pan
+		e["traced"], e["tap"] = tap.takeTraced(), true
 		// what the client receives after this segment
 		want := seen + len(res.out)
 		deadline := time.Now().Add(2 * time.Second)
@@ -417,7 +438,7 @@ func (p *connPeer) send(n int) Ev {
 	}
 	s := p.all[p.off : p.off+n]
 	p.off += n
-	e := Ev{"ev": "segment", "conn": p.id, "bytes": ints(s), "out": []int{}, "close": false, "panic": false, "stuck": false}
+	e := Ev{"ev": "segment", "conn": p.id, "bytes": ints(s), "out": []int{}, "close": false, "panic": false, "stuck": false, "traced": []int{}, "tap": false}
 	if p.exited {
 		e["close"] = true
 		return e
@@ -555,7 +576,7 @@ func runStreamConns(c *streamCase) []Ev {
 				evs = append(evs, p.send(st.N))
 			case "leave":
 				// whatever reached this client after its last read belongs to the stream too
-				e := Ev{"ev": "segment", "conn": p.id, "bytes": []int{}, "out": []int{}, "close": false, "panic": false, "stuck": false}
+				e := Ev{"ev": "segment", "conn": p.id, "bytes": []int{}, "out": []int{}, "close": false, "panic": false, "stuck": false, "traced": []int{}, "tap": false}
 				p.collect(e, 0)
 				evs = append(evs, e)
 				p.conn.Close()
